@@ -902,6 +902,10 @@ func runC10(c *explore.Ctx) {
 		{opInitClean, 1, 2, opRI1, opRead1, opClose, opInitResume},
 		{opInitClean, 3, 1, opRI1, opRead2, opAdv6, opClose, opInitResume},
 		{opInitClean, 1, 2, 1, opRI1, opRead2, opClose},
+		// an online session with two in-flight entries of which the one behind the front has
+		// expired (its message's own expiry / the in-flight expiry; the front is a PUBREL)
+		{opInitClean, opRI1, 1, 3, opRead2, opAdv6},
+		{opInitClean, opRI1, 2, 1, opRead2, opReplace, opAdv31},
 	}
 	// redis backend: same alphabet, reference and oracles; the "private list" is the
 	// redis list itself (read from the RESP server's memory after every op)
@@ -918,6 +922,9 @@ func runC10(c *explore.Ctx) {
 			units = append(units, unit{cf, []int{opInitClean, a}, "redis"})
 		}
 		for _, p := range directed {
+			if cf.max < 2 && len(p) == 7 && p[5] == opReplace {
+				continue // needs two entries
+			}
 			units = append(units, unit{cf, p, "redis"})
 		}
 	}
@@ -930,6 +937,9 @@ func runC10(c *explore.Ctx) {
 		// directed non-initial states (resumed sessions with in-flight entries), explored
 		// breadth-first from there
 		for _, p := range directed {
+			if cf.max < 2 && len(p) == 7 && p[5] == opReplace {
+				continue // needs two entries
+			}
 			units = append(units, unit{cf, p, "mem"})
 		}
 	}
